@@ -1,6 +1,6 @@
 SPECIFICATION Spec
 CONSTANTS
   Family = "form"
-  MaxDepth = 3
+  MaxDepth = 4
   FullOps = "all"
 INVARIANTS SpineOK FullOK Emit
